@@ -17,7 +17,7 @@ namespace Ssv.Registry
     within the operator bound -/
 theorem C11_tie_constants :
     Gen.eventhandler_maxOperators = 13 ∧ Gen.eventhandler_encryptedKeyLength = 256 ∧
-    Gen.src_ValidCommitteeSize = "963ee057b7fb4dc6" ∧ Gen.src_BelongsToOperator = "fa0349ebe9873e86" ∧
+    Gen.src_ValidCommitteeSize = "4833e46ed1722284" ∧ Gen.src_BelongsToOperator = "bfef44e34c0869c7" ∧
     (∀ n, n ≤ Gen.eventhandler_maxOperators → (validCommitteeSize n = true ↔ n = 4 ∨ n = 7 ∨ n = 10 ∨ n = 13)) ∧
     expectedSharesLen 4 = 1312 := by
   refine ⟨rfl, rfl, by decide, by decide, ?_, by decide⟩
@@ -26,7 +26,7 @@ theorem C11_tie_constants :
 
 /-- nonce handling of the recipients storage (fingerprinted): GetNextNonce / BumpNonce as modelled -/
 theorem C11_tie_nonce_source :
-    Gen.src_GetNextNonce = "01a133707ae89714" ∧ Gen.src_BumpNonce = "a938d096baa567c0" := by decide
+    Gen.src_GetNextNonce = "f591aca71318176e" ∧ Gen.src_BumpNonce = "703d3a1899808621" := by decide
 
 /-- order of reads, guards and writes the model relies on:
     * handleValidatorAdded reads the nonce, BUMPS it, and only then validates operators, share length, signature,
